@@ -195,8 +195,11 @@ def generate(ctx, module, plan, workers=8):
     for entry in plan:
         label, consts, invariants, export, witnesses = entry[:5]
         env = {"VF_WITNESSES": "1"} if witnesses else {}
-        if len(entry) > 5:                       # seeded random larger graphs replace the enumeration
-            env["VF_GRAPHS"] = write_graphs(ctx, entry[5])
+        if len(entry) > 5:
+            if entry[5].get("graphs"):           # seeded random larger graphs replace the enumeration
+                env["VF_GRAPHS"] = write_graphs(ctx, entry[5]["graphs"])
+            if entry[5].get("extra"):            # long graphs added to the enumeration (heads as tips, always exported)
+                env["VF_EXTRA"] = write_graphs(ctx, entry[5]["extra"])
         if export:
             got = table.generate(ctx, module, consts, invariants=invariants, label="%s %s" % (module, label),
                                  workers=workers, timeout=3000, env=env)
@@ -233,6 +236,40 @@ def random_graphs(rng, count, lo, hi, maxpar=3, ghost_p=0.15):
             seen.add(g)
             out.append([list(ps) for ps in g])
     return out
+
+
+def long_graph(rng, n):
+    """A seeded random history of n revisions with one head: a mainline with side branches that are forked from it,
+    extended, merged into one another (nested merges) and merged back."""
+    par, main, mainline, sides = [[]], 1, [1], []
+    while len(par) < n:
+        r = len(par) + 1
+        left = n - len(par)
+        x = rng.random()
+        if sides and (left <= len(sides) or x < 0.22):
+            s = sides.pop(rng.randrange(len(sides)))
+            par.append([main, s])
+            main = r
+            mainline.append(r)
+        elif x < 0.42 and left > len(sides) + 1:
+            par.append([rng.choice(mainline[-6:])])
+            sides.append(r)
+        elif sides and x < 0.62 and left > len(sides):
+            i = rng.randrange(len(sides))
+            par.append([sides[i]])
+            sides[i] = r
+        elif len(sides) >= 2 and x < 0.70 and left > len(sides):
+            a = sides.pop(rng.randrange(len(sides)))
+            i = rng.randrange(len(sides))
+            par.append([sides[i], a])
+            sides[i] = r
+        else:
+            par.append([main])
+            main = r
+            mainline.append(r)
+    if sides or heads_of(par) != [n]:
+        return long_graph(rng, n)
+    return par
 
 
 def write_graphs(ctx, graphs):
